@@ -23,12 +23,19 @@ TRUSTED = ["Go race detector (ThreadSanitizer runtime)"]
 def gen_ops(tier, rng):
     ops = []
     cells = [(2, 1), (2, 4), (8, 4), (8, 16), (48, 16), (8, 1)] if tier == "quick" else [(n, g) for n in (2, 8, 48) for g in (1, 4, 16)]
-    confs = [("default", "-", 5, 3), ("default", "ic-", 5, 3), ("cauchy", "ms=64,g=4", 10, 4),
-             ("leo8", "-", 8, 8), ("leo8", "-", 20, 12), ("leo16", "-", 8, 8)]
+    confs = [("default", "-", 5, 3, None), ("default", "ic-", 5, 3, None), ("cauchy", "ms=64,g=4", 10, 4, None),
+             ("leo8", "-", 8, 8, None), ("leo8", "-", 20, 12, None), ("leo16", "-", 8, 8, None),
+             # shards above minSplitSize: the internal chunk workers and the per-encoder scratch pools (expanded coding
+             # matrices of the generated AVX2 / GFNI kernels) are shared by callers that use DIFFERENT matrices
+             ("default", "gfni-,avxgfni-", 10, 4, [65536, 262144, 100000]), ("default", "-", 10, 4, [65536, 262144]),
+             ("cauchy", "gfni-,avxgfni-", 6, 6, [131072, 70000]), ("default", "gfni-,avxgfni-,avx2-", 10, 4, [65536, 100000]),
+             ("default", "avx2-", 12, 11, [65536, 100000])]
     reps = 1 if tier == "quick" else 6
-    for (fam, opts, d, p) in confs:
+    for (fam, opts, d, p, bigsizes) in confs:
         leo = fam.startswith("leo")
         for (n, gmp) in cells:
+            if bigsizes and (n > 8 or (tier == "quick" and gmp == 1)):
+                continue
             for _ in range(reps):
                 # a few erasure sets shared by many goroutines: they miss and insert the same key at once
                 hot = [sorted(rng.sample(range(d + p), rng.randint(1, p))) for _ in range(3)]
@@ -36,7 +43,7 @@ def gen_ops(tier, rng):
                 for g in range(n):
                     subs = []
                     for _ in range(rng.randint(3, 8)):
-                        size = rng.choice([64, 128, 4096]) if leo else rng.choice([10, 64, 100, 1000, 4097])
+                        size = rng.choice(bigsizes) if bigsizes else rng.choice([64, 128, 4096]) if leo else rng.choice([10, 64, 100, 1000, 4097])
                         r = rng.random()
                         if r < 0.7:
                             E = rng.choice(hot) if rng.random() < 0.7 else sorted(rng.sample(range(d + p), rng.randint(0, p)))
